@@ -334,6 +334,15 @@ class C18(PropBase):
                 for f in (own, own | 0x7f):
                     cases.append("R %d %d %d" % (a, f, ln))
                     nr += 1
+        # big-endian reads (PPC / SPARC dumps are big-endian): the bytes hold the fill word little-endian, so the context sees it swapped
+        bsw = lambda x: int.from_bytes(x.to_bytes(4, "little"), "big")
+        for a in arch_nums:
+            own = own_of.get(a, 0x10000)
+            sz = size_of.get(a, 716)
+            for f in (bsw(own), bsw(own | 0x40), bsw(own | 0x200), own, 0):
+                for ln in (8192, sz, sz - 1):
+                    cases.append("R %d %d %d B" % (a, f, ln))
+                    nr += 1
         dist["read_cases"] = nr
         # de-duplicate S:a,a (a HashSet cannot hold a name twice)
         out = []
@@ -361,14 +370,16 @@ class C18(PropBase):
     DEFAULT_SIZES = {"X86": 716, "Amd64": 1232, "Ppc": 1004, "Ppc64": 1160, "Sparc": 584, "Arm": 368, "Arm64": 912, "OldArm64": 796, "Mips": 600}
 
     def _oracle_read(self, case, ans):
-        _, arch, fill, ln = case.split(" ")
-        arch, fill, ln = int(arch), int(fill), int(ln)
+        f = case.split(" ")
+        arch, fill, ln = int(f[1]), int(f[2]), int(f[3])
+        if f[4:] == ["B"]:
+            fill = int.from_bytes(fill.to_bytes(4, "little"), "big")     # what a big-endian reader sees in every word
         if ans.startswith("P;;"):
             return "MinidumpContext::read panicked: %s" % ans[3:200]
         d = parse(ans)
         T = names_table()
         want = self.ARCH_VARIANT.get(arch)
-        who = "MinidumpContext::read(architecture %#x, %d bytes, every word %#x)" % (arch, ln, fill)
+        who = "MinidumpContext::read(architecture %#x, %d bytes, every word %#x%s)" % (arch, ln, fill, ", big-endian" if f[4:] else "")
         rdv = d.get("rd")
         if rdv in ("RF", "UC"):
             if want is not None and ln >= 8192 and (fill & 0xffffff00) == T[want]["cpu_flags"][T[want]["type"]]:
